@@ -175,3 +175,22 @@ impl StrRef {
 }
 
 pub use core::ops::{Bound, Range, RangeBounds};
+
+// ---- &str operations of push_pstr, over the byte view of the text (R6, TRUSTED UTF-8 facts: the byte 0
+// occurs in UTF-8 only as the character NUL, so "first char is NUL" is "first byte is 0", `find('\0')`
+// is the first zero byte, and the positions before/after a NUL are character boundaries)
+#[verifier::external_body]
+pub fn str_first_is_nul(s: StrRef) -> (r: bool) ensures r == (s.bytes().len() > 0 && s.bytes()[0] == 0) { unimplemented!() }
+#[verifier::external_body]
+pub fn str_from(s: StrRef, n: usize) -> (r: StrRef) requires n <= s.n() ensures r.bytes() == s.bytes().skip(n as int), r.n() == s.n() - n { unimplemented!() }
+#[verifier::external_body]
+pub fn str_range(s: StrRef, a: usize, b: usize) -> (r: StrRef) requires a <= b <= s.n() ensures r.bytes() == s.bytes().subrange(a as int, b as int), r.n() == b - a { unimplemented!() }
+#[verifier::external_body]
+pub fn str_find_nul(s: StrRef) -> (r: Option<usize>)
+    ensures match r { Some(i) => i == first_zero(s.bytes()) && i < s.n() && s.bytes()[i as int] == 0, None => first_zero(s.bytes()) == s.n() } { unimplemented!() }
+#[verifier::external_body]
+pub fn debug_assert_shim2(a: usize, b: usize) { unimplemented!() }
+// cell constructors (content not modelled)
+#[verifier::external_body] pub fn list_loc_as_cell(h: usize) -> HeapCellValue { unimplemented!() }
+#[verifier::external_body] pub fn pstr_loc_as_cell(h: usize) -> HeapCellValue { unimplemented!() }
+#[verifier::external_body] pub fn char_as_cell(c: char) -> HeapCellValue { unimplemented!() }
